@@ -311,6 +311,12 @@ def make_huge(rng, giant=False):
     n = rng.choice([66000, 70000, 131100, 140000]) + rng.randint(-200, 200)
     if giant:
         n = rng.choice([1049000, 1100000, 1100000, 2098000, 2200000]) + rng.randint(-200, 200)
+        if "-" in unit and ctx[:1] == ["<!--"]:
+            # html5lib's comment states append to the comment's data once per dash: quadratic in the length of the comment
+            # (2 s for 550 000 characters, half a minute for 2 million).  That is performance, which this technique does not
+            # decide - but it would run into the CPU budget that stands for "does not terminate" (found by soak run 5,
+            # VERIF_SEED=41: a false liveness alarm on the unchanged tree).  Giant comments are made of dash-free text.
+            unit = "word "
     run = unit * (n // len(unit))
     tail = [rng.choice(["]]>", "?>", ">", "-->", "'>", "</script>", "</title>", "</textarea>", "</table>", "</pre>", ""]),
             rng.choice(["<p>after", "</i>", "&amp;", "x"])]
